@@ -476,6 +476,35 @@ func Encode(req int, op Op, nowNs int64) *Wire {
 			}
 			w.Body, _ = json.Marshal(spans)
 		}
+	case "elastic-bulk", "elastic-doc":
+		// server-side timestamps: TsNs = -1 means "not comparable"
+		if op.Proto == "elastic-doc" {
+			w.Path, w.ContentType = fmt.Sprintf("/idx%d/_doc", req%3), "application/json"
+			x := &ExpRow{Req: req, Tag: fmt.Sprintf("q%ds0e0", req), Type: 1, TsNs: -1}
+			pad := 0
+			if len(op.Streams) > 0 && len(op.Streams[0].Entries) > 0 {
+				pad = op.Streams[0].Entries[0].Pad
+			}
+			x.Line = fmt.Sprintf(`{"message":"%s doc%s"}`, x.Tag, strings.Repeat("x", pad))
+			w.Body = []byte(x.Line)
+			w.Rows = append(w.Rows, x)
+			break
+		}
+		w.Path, w.ContentType = "/_bulk", "application/x-ndjson"
+		var b bytes.Buffer
+		for si, s := range op.Streams {
+			for ei, e := range s.Entries {
+				x := &ExpRow{Req: req, Stream: si, Entry: ei, Tag: fmt.Sprintf("q%ds%de%d", req, si, ei), Type: 1, TsNs: -1}
+				x.Line = fmt.Sprintf(`{"message":"%s bulk%s"}`, x.Tag, strings.Repeat("x", e.Pad))
+				action := "index"
+				if ei%2 == 1 {
+					action = "create"
+				}
+				fmt.Fprintf(&b, "{\"%s\":{\"_index\":\"idx%d\"}}\n%s\n", action, si, x.Line)
+				w.Rows = append(w.Rows, x)
+			}
+		}
+		w.Body = b.Bytes()
 	case "pprof", "pprof-multipart":
 		tag := fmt.Sprintf("q%ds0e0", req)
 		x := &ExpRow{Req: req, Tag: tag, Profile: true, TsNs: (nowNs / 1e9) * 1e9}
